@@ -63,6 +63,8 @@ class Instance:
             return self.fields[name]
         if name == "__class__":
             return self.oe.ref(self.c)
+        if name == "__dict__":
+            return self.fields  # the instance dict itself: pops and stores through it are seen by later attribute reads
         return self.oe.class_getattr(self.c, name, self)
 
     def sa_setattr(self, name: str, v):
@@ -292,6 +294,9 @@ class RepoModuleRef:
     def sa_attr(self, name: str):
         v = self.oe.module_global(self.m, name)
         if v is _MISSING:
+            sub = self.oe.repo.modules.get(f"{self.m.name}.{name}")
+            if sub is not None:
+                return RepoModuleRef(self.oe, sub)  # `import pkg.sub` makes the sub-module an attribute of the package
             raise PyRaise("AttributeError")
         return v
 
@@ -486,7 +491,12 @@ class ObjEval:
             return BoundMethod(self, f, cr, owner)
         if f.kind == "property":
             if isinstance(receiver, (Instance, EnumMember)):
-                return self.call_func(f, [receiver], {}, owner)
+                v = self.call_func(f, [receiver], {}, owner)
+                if any((dotted(d) or "").split(".")[-1] == "cached_property" for d in f.node.decorator_list):
+                    # functools.cached_property: the value lands in the instance dict under the property's own name, and the
+                    # instance dict shadows the (non-data) descriptor from then on - until `del obj.name` / `__dict__.pop`
+                    receiver.fields[f.name] = v
+                return v
             raise Unsupported("property read on a class")
         if isinstance(receiver, (Instance, EnumMember)):
             return BoundMethod(self, f, receiver, owner)
@@ -1264,6 +1274,18 @@ class OEvaluator(Evaluator):
             base = self.ev(st.targets[0].value)
             if isinstance(base, Instance):
                 self.oe.class_getattr(base.c, "__delitem__", base)(self._index(st.targets[0].slice))
+                return
+        if isinstance(st, ast.Delete) and len(st.targets) == 1 and isinstance(st.targets[0], ast.Attribute):
+            base = self.ev(st.targets[0].value)
+            if isinstance(base, Instance):
+                attr = st.targets[0].attr
+                for k in self.oe.repo.mro_classes(base.c):
+                    if k.method(attr, "deleter") is not None:
+                        self.oe.call_func(k.method(attr, "deleter"), [base], {}, k)
+                        return
+                if attr not in base.fields:
+                    raise PyRaise("AttributeError")
+                del base.fields[attr]
                 return
         if isinstance(st, ast.Raise):
             name = "Exception"
